@@ -570,6 +570,95 @@ def probe_model_rooted_copies(seed, n):
     return cases, fails
 
 
+class _KeyedMachineBase:
+    pass
+
+
+def _keyed_machine():
+    import warnings
+    from statemachine import State, StateMachine
+    with warnings.catch_warnings():
+        warnings.simplefilter("ignore")
+
+        class _KeyedMachine(StateMachine):
+            """a machine that compares by the key of the record it tracks (value semantics)"""
+            draft = State(initial=True)
+            paid = State()
+            shipped = State(final=True)
+            pay = draft.to(paid)
+            ship = paid.to(shipped)
+            undo = paid.to(draft)
+
+            def __init__(self, key, **kw):
+                self.key = key
+                super().__init__(**kw)
+
+            def __eq__(self, other):
+                return isinstance(other, _KeyedMachine) and other.key == self.key
+
+            def __hash__(self):
+                return hash(self.key)
+    return _KeyedMachine
+
+
+_KeyedMachine = None
+
+
+def probe_equal_machines(seed, n):
+    """Directed family: machines with value-based `__eq__` / `__hash__` (two machines tracking the same record are
+    equal). A copy is kept alongside its original and the two are driven apart: for each of them exactly the state
+    the *model* stores is active — `sm.<state>.is_active`, `sm.current_state.is_active` — whatever the other one does."""
+    import copy
+    import pickle
+    import random
+    import sys
+    global _KeyedMachine
+    if _KeyedMachine is None:
+        _KeyedMachine = _keyed_machine()
+        _KeyedMachine.__qualname__ = "_KeyedMachine"
+        _KeyedMachine.__module__ = __name__
+        setattr(sys.modules[__name__], "_KeyedMachine", _KeyedMachine)
+    fails, cases = [], 0
+
+    def view(sm):
+        return dict(state=sm.current_state.id, active=[s.id for s in sm.states if getattr(sm, s.id).is_active],
+                    cur_active=sm.current_state.is_active)
+    for i in range(n):
+        rng = random.Random(f"{seed}:eqmachines:{i}")
+        how = rng.choice(["deepcopy", "pickle", "copy"])
+        pre = rng.choice([[], ["pay"], ["pay", "undo"]])
+        cases += 1
+        what = f"{how} after {pre}"
+        try:
+            o = _KeyedMachine(key=rng.randint(1, 3))
+            view(o)
+            for e in pre:
+                o.send(e)
+            view(o)
+            c = (copy.deepcopy(o) if how == "deepcopy" else pickle.loads(pickle.dumps(o)) if how == "pickle"
+                 else copy.copy(o))
+            if how == "copy":
+                continue_ok = c.model is o.model   # a shallow copy shares the model: not a clone in C17's sense
+                if continue_ok:
+                    continue
+            steps_o = rng.choice([["pay"], ["pay", "ship"], []]) if o.current_state.id == "draft" else rng.choice([["ship"], ["undo"], []])
+            steps_c = rng.choice([["pay"], ["pay", "ship"], []]) if c.current_state.id == "draft" else rng.choice([["ship"], ["undo"], []])
+            for k in range(max(len(steps_o), len(steps_c))):
+                if k < len(steps_o):
+                    o.send(steps_o[k])
+                if k < len(steps_c):
+                    c.send(steps_c[k])
+                for nm, m in (("original", o), ("copy", c)):
+                    v = view(m)
+                    if v["active"] != [v["state"]] or not v["cur_active"]:
+                        fails.append(f"{what}, original did {steps_o[:k + 1]}, copy did {steps_c[:k + 1]}: the {nm} is in "
+                                     f"{v['state']} but its states say {v}")
+                        break
+        except Exception as e:
+            fails.append(f"{what}: {type(e).__name__}: {e}")
+    return cases, fails
+
+
 def run_findings(ctx):
     known = {k.get("exclusion"): k for k in known_findings("C17") if k.get("status") == "known"}
     for key, probe, title in (("callback-attribute-assigned-after-construction", probe_d39,
@@ -591,6 +680,10 @@ def run(ctx):
     ctx.coverage["model_rooted_copies"] = ncases
     if rf:
         ctx.violation(ctx.write_replay("model_rooted_copy.txt", "\n".join(rf[:10]) + "\n"), rf[0][:160])
+    ncases, ef = probe_equal_machines(ctx.seed, 120 if ctx.tier == "quick" else 2000)
+    ctx.coverage["equal_machines_cases"] = ncases
+    if ef:
+        ctx.violation(ctx.write_replay("equal_machines.txt", "\n".join(ef[:10]) + "\n"), ef[0][:200])
     clone_guard_expressions(ctx, 150 if ctx.tier == "quick" else 3000)
     ctx.coverage["rule"] = RULE
     ctx.assumptions += [
